@@ -16,7 +16,7 @@ from ..translate import specslex as tr_specslex
 from ..translate import specsfind as tr_specsfind
 
 PROP = "C18"
-MODULES = ["XpmVerif.Properties.C18", "XpmVerif.Properties.C18Parse", "XpmVerif.Properties.C18Lex", "XpmVerif.Properties.C18Find"]
+MODULES = ["XpmVerif.Properties.C18", "XpmVerif.Properties.C18Parse", "XpmVerif.Properties.C18Lex", "XpmVerif.Properties.C18Find", "XpmVerif.Properties.C18Sort"]
 GB = 10**9
 
 
